@@ -61,7 +61,8 @@ def check_entries(rep, prog, ts_term):
 
     def get_message(*a):
         entry, pte = a[-2] if len(a) > 1 else None, a[-1]
-        return "MSG<%08X>" % pte if entry == ("ENT", pte) else "<message of another entry: %r>" % (entry,)
+        # (messages with leading / trailing white space: the line shows the message as the table gives it)
+        return ("MSG<%08X>" % pte) + (" \t" if pte % 2 else "") + ("" if pte % 4 else " ") if entry == ("ENT", pte) else "<message of another entry: %r>" % (entry,)
     stubs = {"call:" + IL + "PTETable.get_entry": get_entry, "call:" + IL + "PTETableEntry.get_message": get_message, "m:get_message": get_message}
     E = lambda t, q, p: struct.pack(">HHI", t, q, p)
     samples = [b"", b"\x00" * 7, E(1, 2, 4), E(1, 2, 4) + b"\x01", E(0, 0, 0), E(0, 0, 5), E(0, 7, 0), E(9, 0, 0), E(0xFFFF, 0xABCD, 0xDEADBEEF),
